@@ -535,6 +535,13 @@ class Gen:
         return sc
 
     def s_assert(self, sc, ind, depth):
+        ls = sc.of('L')
+        if ls and self.rng.random() < self.p.get('len_assert_prob', 0):
+            a = self.rng.choice(ls)
+            rhs = f'len({self.rng.choice(ls)})' if self.rng.random() < 0.5 else str(self.rng.choice([1, 2, 3]))
+            self.features.add('len_assert')
+            self.emit(ind, f'assert len({a}) == {rhs}')
+            return sc
         v = self.real(sc, 1)
         self.features.add('assert')
         self.emit(ind, f'assert ({v} == {v}) or True')
@@ -634,6 +641,11 @@ class Gen:
             xs = rng.choice(ls)
             self.features.add('zip')
             other = f'[{self.real(_with(sc, "q0"), 1)} for q0 in {xs}]' if self.p['comprehension'] and rng.random() < 0.5 else xs
+            if rng.random() < self.p.get('zip_two_lists_prob', 0):
+                # a strict zip of two unrelated lists (or of a list and a literal one): says their lengths agree -- where it runs
+                others = [v for v in ls if v != xs]
+                other = rng.choice(others) if others and rng.random() < 0.6 else '[' + ', '.join(self.lit() for _ in range(rng.choice([1, 2, 3]))) + ']'
+                self.features.add('zip_two_lists')
             self.emit(ind, f'for {a}, {b} in zip({xs}, {other}):')
             body.vars[a] = 'R'
             body.vars[b] = 'R'
